@@ -808,6 +808,16 @@ def gen_file_pattern(rng, exotic):
     r["meta"] = gen_meta(rng)
     r["pass_none"] = rng.random() < 0.2
     k = rng.random()
+    if EXOTIC and rng.random() < 0.05:
+        # a whole-day pattern flagged all-day in a zone that is at UTC+0 only part of the year, anchored
+        # in that part (Europe/London in winter) and asked about in the other: its flag cannot be
+        # written (recorded finding ALLDAYPAT) but its spans must survive the round trip all year
+        r.update(freq=rng.choice(["daily", "daily", "weekly"]), interval=rng.choice([1, 2, 3]), days=[], dom=[],
+                 months=[], setpos=[], tz="Europe/London", sod=0, dur=rng.choice([1, 1, 2]) * DAY,
+                 anchor=[rng.randrange(2001, 2030), rng.choice([1, 2, 11, 12]), rng.randrange(1, 28), 0, 0, 0],
+                 as_int=False, exdates=[], extras=dict(NO_EXTRAS), week_form=False, cls="ical", zoned_allday=True)
+        r["meta"]["allday"] = True
+        return r
     if k < 0.2:
         # all-day: whole days from midnight
         r["sod"] = 0
@@ -816,8 +826,14 @@ def gen_file_pattern(rng, exotic):
         r["dur"] = rng.choice([1, 1, 2, 3]) * DAY
         if rng.random() < 0.75:
             r["tz"] = "UTC"
-        if r["cls"] == "ical" and (r["tz"] == "UTC" or exotic):
+        # flagged all-day: always in UTC; in another zone (local midnights, whole days) the flag cannot
+        # be written (recorded finding ALLDAYPAT) but the spans must survive — one zoned all-day
+        # pattern in three is flagged, so that the "may it be written as a DATE" decision is exercised
+        # in zones that are at UTC+0 only part of the year (Europe/London in winter)
+        if r["cls"] == "ical" and (r["tz"] == "UTC" or exotic or (EXOTIC and rng.random() < 0.35)):
             r["meta"]["allday"] = True
+        if r["tz"] != "UTC" and r["anchor"] is not None and r["anchor"][1] in (1, 2, 11, 12) and rng.random() < 0.8:
+            r["tz"] = "Europe/London"                          # anchored in winter: UTC+0 on DTSTART
     elif k < 0.3:
         r["extras"] = gen_extras(rng, r["freq"])
     if exotic and r["anchor"] is not None and not r["meta"]["allday"]:
@@ -921,6 +937,10 @@ class FilesFamily(IcalFamily):
             ln = rng.choice([3600, DAY, 3 * DAY, 10 * per, rng.randrange(1, 25 * per)])
             a = min(a, HI_TS)
             wins.append([a, min(a + ln, HI_TS + 400 * DAY)])      # the zone tables end in 2062
+        for it in items:
+            if it.get("zoned_allday"):
+                t0 = item_first_ts(it) + rng.randrange(150, 230) * DAY      # the other half of the year
+                wins.append([t0, min(t0 + rng.choice([3, 10]) * DAY, HI_TS + 400 * DAY)])
         case = dict(items=items, wins=wins)
         # exdates from real starts inside the first window
         for p in pats:
